@@ -603,3 +603,11 @@ package server
 //@ func (*BgpServer).getAdjRib$1
 //@   claims at-call
 //@   at-call s.validateTable(rib) requires arg1 != nil
+
+// (the split used there: every family lands on exactly one side, in order - on "running" only if the session's state
+// says that its long-lived timer was started and has not expired)
+//@ props C12
+//@ func (*peer).llgrTimerRunningFamilies
+//@   claims step
+//@   loop 0 step len(running) + len(over) == header(len(running) + len(over)) + 1
+//@   loop 0 step len(running) > header(len(running)) ==> isRunning
